@@ -30,3 +30,7 @@ def register_all(reg):
     reg("C28", "seqx", "exploration", "bounded-exhaustive input enumeration vs reference model",
         "Every shipped algorithm's declared parameters (plus docstring definitions): all subsets of <=2 (quick) / <=3 (thorough) parameters over 20+-value menus, larger subsets over one value per class, each also with an undeclared name and in both supply orders, through check_param_value, prepare_algo_params, build_with_default_param and (as name:value strings) build_algo_def; keys, types, values and defaults compared with a reference prepare; invalid or unknown entries must be rejected.",
         "Values whose treatment the property leaves open (bool, ' 7 ', 2.5 or '1.5' for an int, bytes) are only type-checked when accepted; duplicate name:value entries are outside the alphabet. " + E2_NOTE, "DESIGN.md 3 C28")
+
+    reg("C01", "netx", "model_checking", "explicit-state search of the real DPOP computations over a virtual FIFO network (all start orders and delivery interleavings, state caching) x bounded-exhaustive instance family",
+        "For every DCOP of the small-scope family the real pseudo-tree is built and every reachable state of the real DPOP computations is visited; every maximal path must end with all computations finished on a brute-force-optimal, complete, in-domain assignment.",
+        NETX_NOTE, "DESIGN.md 3 C01")
